@@ -101,7 +101,9 @@ inductive Op where
   | emit                     -- a hooked block returns: record the current shape
 deriving Repr, DecidableEq
 
-def Shape.prod (s : Shape) : Nat := s.foldl (· * ·) 1
+def Shape.prod : Shape → Nat
+  | [] => 1
+  | n :: s => n * Shape.prod s
 
 /-- apply `f` on every axis when `ok` holds on every axis -/
 def axes (ok : Nat → Bool) (f : Nat → Nat) (st : State) : Except Err State :=
